@@ -397,6 +397,12 @@ class Interp:
     def run_unit(self, unit, st, args, kwargs):
         """Bind parameters and execute the body.  Returns [(state, ctl)] with ctl in return/raise."""
         UNITS_READ.add(unit.key)
+        # a decorator may change what calling the name means (memoisation, wrapping): only those known to leave the
+        # call semantics of the body alone are looked through - for inlined callees and for units under verification alike
+        for dec in getattr(unit.node, "decorator_list", []) or []:
+            dn = ast.unparse(dec.func if isinstance(dec, ast.Call) else dec)
+            if dn not in TRANSPARENT_DECORATORS and dn not in self.ctx.config.get("transparent_decorators", ()):
+                raise OutOfSubset("function %s is decorated with %s, whose effect on calls is not modelled" % (unit.key, dn))
         st = st.fork()
         saved = (st.env, st.unit, st.closure)
         st.env = {}
@@ -1105,12 +1111,6 @@ class Interp:
         unit = self.repo.units.get(f.key)
         if unit is None:
             raise OutOfSubset("no source for %s" % f.key)
-        # a decorator may change what calling the name means (memoisation, wrapping): only those known to leave the
-        # call semantics of the body alone are looked through
-        for dec in getattr(unit.node, "decorator_list", []) or []:
-            dn = ast.unparse(dec.func if isinstance(dec, ast.Call) else dec)
-            if dn not in TRANSPARENT_DECORATORS and dn not in self.ctx.config.get("transparent_decorators", ()):
-                raise OutOfSubset("function %s is decorated with %s, whose effect on calls is not modelled" % (f.key, dn))
         if self.ctx.inline_depth > 6:
             raise OutOfSubset("inlining too deep (recursive function without a contract?): %s" % f.key)
         args = [self.force(st, a) for a in args]
